@@ -88,4 +88,10 @@ def _c12():
             "replay_fn": sk.replay_fn, "replay_file_fn": sk.replay_file}
 
 
-PROPS = {"C12": _c12, "C16": _c16, "C19": _c19, "C09": _c09, "C07": _c07, "C06": _c06, "C20": _c20, "C01": _c01, "C05": _c05}
+def _c18():
+    import jsonk as jk
+    return {"builders": [jk.build], "level": "other", "explanation": "JSON tokenizer safety/termination/depth and per-byte string round trip",
+            "replay_fn": jk.replay_fn, "replay_file_fn": jk.replay_file}
+
+
+PROPS = {"C18": _c18, "C12": _c12, "C16": _c16, "C19": _c19, "C09": _c09, "C07": _c07, "C06": _c06, "C20": _c20, "C01": _c01, "C05": _c05}
